@@ -37,7 +37,10 @@ type FwdSpec struct {
 
 // progress of the convert functions of a case's sources (one counter per source): how far the
 // goroutines that read them have come.  Only used to let a slow reader wait for its producers.
-type fwdProgress struct{ n []*int32 }
+type fwdProgress struct {
+	n     []*int32
+	spent time.Duration // total time waited so far: bounded, so that a loaded machine never turns waiting into a "hang"
+}
 
 func (p *fwdProgress) counter() *int32 {
 	c := new(int32)
@@ -57,6 +60,11 @@ func (p *fwdProgress) sum() int32 {
 // parked on full buffers, finished, or recovering from their panic), at most 150 ms, then a little
 // longer for the deferred handlers.  Waiting too short only makes the reader less slow.
 func (p *fwdProgress) settle() {
+	if p.spent > 1500*time.Millisecond {
+		return
+	}
+	start := time.Now()
+	defer func() { p.spent += time.Since(start) }()
 	deadline := time.Now().Add(150 * time.Millisecond)
 	last, since := p.sum(), time.Now()
 	for time.Now().Before(deadline) {
@@ -183,7 +191,7 @@ func runFwd(c *Case) Obs {
 	done := make(chan res, 1)
 	go func() {
 		var r res
-		r.pan = lib.Recover(func() {
+		r.pan = recoverAll(func() {
 			m := schema.MergeStreamReaders(srs)
 			defer func() {
 				m.Close()
@@ -277,7 +285,10 @@ func oracleFwd(c *Case, o *Obs) (string, string) {
 			return fmt.Sprintf("member %d of the merge never delivered %s (got %v)", m, what, o.F.Out), sig
 		}
 	}
-	if len(o.F.Out) != total {
+	if len(o.F.Out) < total { // (the two copies of one source hold the same items: each must deliver its own)
+		return fmt.Sprintf("the merged stream delivered %d items, its members hold %d — an item of some member is lost: %v", len(o.F.Out), total, o.F.Out), "forwarder-lost-item"
+	}
+	if len(o.F.Out) > total {
 		return fmt.Sprintf("the merged stream delivered %d items, its members hold %d: %v", len(o.F.Out), total, o.F.Out), "forwarder-extra-item"
 	}
 	return "", ""
